@@ -181,7 +181,7 @@ def _run_blk_history(ia, o1, z1, vals, sched, ops, nb, with_b2):
         if (sched >> k) & 1:
             _touch(bi)
             _touch(bj)
-        v = vals[k]
+        v = vals[k % len(vals)]
         if op == "o":
             b1.offset = v
             m_b1[1] = v
@@ -463,13 +463,15 @@ def _run_sec_history(a1, s1, vals, sched, ops, nb):
         t = gtirb.Section(name="t", module=m, uuid=UUID(int=13))
         ballast = [gtirb.ByteInterval(address=TOP, size=0, section=s, uuid=UUID(int=100 + i)) for i in range(nb)]
         it = gtirb.ByteInterval(address=TOP, size=0, section=t, uuid=UUID(int=14))
+        noaddr = [gtirb.ByteInterval(address=None, size=3, uuid=UUID(int=300 + i)) for i in range(2)]
+    grown = []
     i1 = gtirb.ByteInterval(address=a1, size=s1, section=s, uuid=UUID(int=4))
     m_i1 = [0, a1, s1]           # section index (0 = s, 1 = t, None), address, size
     for k, op in enumerate(ops):
         if (sched >> k) & 1:
             s.address
             t.address
-        v = vals[k]
+        v = vals[k % len(vals)]
         if op == "A":
             i1.address = v
             m_i1[1] = v
@@ -489,12 +491,21 @@ def _run_sec_history(a1, s1, vals, sched, ops, nb):
         elif op == "m":
             i1.section = t
             m_i1[0] = 1
+        elif op == "u":
+            # two address-less intervals join the section: the collection grows without any index event
+            s.byte_intervals.update(noaddr)
+            grown[:] = noaddr
+        elif op == "d":
+            # ... and leave again
+            for x in noaddr:
+                s.byte_intervals.discard(x)
+            grown[:] = []
         else:
             raise AssertionError(op)
     if (sched >> len(ops)) & 1:
         s.address
         t.address
-    return (ir, m, s, t, i1, it, ballast), m_i1
+    return (ir, m, s, t, i1, it, ballast + list(grown)), m_i1
 
 
 def _sec_answers(objs, q, with_t):
@@ -519,7 +530,7 @@ def sec_hist(a1: Optional[int], s1: int, v0: int, v1: int, v2: int, start: int, 
     ir, m, s, t, i1, it, ballast = objs
     q = range(start, stop)
     got = _sec_answers(objs, q, with_t)
-    mem_s = [(b, TOP, 0) for b in ballast]
+    mem_s = [(b, (TOP if b.uuid.int < 300 else None), (0 if b.uuid.int < 300 else 3)) for b in ballast]
     mem_t = [(it, TOP, 0)]
     if m_i1[0] == 0:
         mem_s = [(i1, m_i1[1], m_i1[2])] + mem_s
